@@ -94,6 +94,19 @@ def jobs_c20(tier, seed):
     ]
 
 
+def lay(name, prop, flavour, table, extra=(), shards=4):
+    rz = ["--redzone", 32] if flavour in ("dbg", "rel") else []
+    return dict(name=name, bin="layoutmon", flavour=flavour, args=["--prop", prop, "--table", table] + rz + list(extra), shards=shards)
+
+
+def jobs_lay(prop, table):
+    def f(tier, seed):
+        big = ["--big"] if tier == T else []
+        return [lay(table, prop, fl, table, big) for fl in ("dbg", "rel", "asan")]
+
+    return f
+
+
 COMMON_ASSUME = [
     "the shadow model mirrors every mutator op it issues (validated by lock-step traversal after every callback)",
     "destructor and release events are observed at the Drop / global-allocator boundary, not inside the collector",
@@ -197,5 +210,26 @@ CHECKS = {
         rule="2-3 arenas with different pacing, random interleavings incl. dropping one arena while another is mid-cycle and presenting foreign handles; M-frame: (phase, count, debt bits, destructor count, live blocks) of every other arena unchanged by each op; projection oracle: each arena's observable trace is bit-identical to the same ops replayed on a lone arena; base-property events count only if the lone twin is clean; non-trivial = at least five frame checks",
         floors={"frame_checks": 100_000, "projections_compared": 10_000},
         assumptions=COMMON_ASSUME + ["gc-arena is deterministic given the op list (payloads avoid randomly seeded hashers)"],
+    ),
+    "C17": dict(
+        level="exploration",
+        jobs=jobs_lay("C17", "layouts"),
+        rule="macro-generated grid: 11 alignments x up to 9 sizes of sized values (with and without a token prefix), 9 header layouts x 9 element layouts x lengths {0,1,2,5,17,seeded} of header-plus-slice and plain slices, str lengths, per-type metadata; each value: alignment, extent inside its block behind the bookkeeping words, byte pattern + address re-read (and rewritten) across 3-4 rounds of collections with neighbours freed, fat/thin/raw round trips, release layout equality (tracking allocator), red zones; non-trivial = non-empty value",
+        floors={"geometry_checks": 1_000, "pattern_checks": 1_500},
+        assumptions=COMMON_ASSUME + ["header size 16 bytes and one length word in front of it for slice kinds are read off gc_ptr.rs; a layout refactor that changes them turns the 'bookkeeping precedes the value' check into an alarm to review"],
+    ),
+    "C18": dict(
+        level="fault_enumeration",
+        jobs=jobs_lay("C18", "builders"),
+        rule="builder kind x abandonment point (fresh, after header, static-unwrap variants, constructor panic at EVERY index k < n for all n <= 6 (9 in thorough)) x element types (destructor, Copy, zero-sized with destructor, 64-byte aligned); oracle: no outstanding allocator block, token counts (header 1, elements [0,k) 1, rest 0), metrics untouched, not in the arena's object list; completion: exactly one block, contents equal; wrong-length copy_slice/copy_str panic without leaking",
+        floors={"abandon_checks": 500, "destructor_count_checks": 300},
+        assumptions=COMMON_ASSUME,
+    ),
+    "C19": dict(
+        level="exploration",
+        jobs=jobs_lay("C19", "convert"),
+        rule="seeded conversion chains (length 1-8) over sized, trait-object, array->slice, slice, str targets using erase, erase_kind, downgrade/upgrade, unsize!, as_thin/as_fat, raw round trips, stash/fetch, allocated in a seeded phase; identity and value at every step, survival with only the converted pointer rooted, destructed exactly once after; ZstCache<1..64> x ZST alignments 1..64 (+ non-ZSTs); non-trivial = chain of >= 2 steps",
+        floors={"chains": 1_000, "zst_cache_checks": 100},
+        assumptions=COMMON_ASSUME + ["the 'no conjured values' half is decided by the conjuring probes"],
     ),
 }
